@@ -49,6 +49,9 @@ func (g *schemaGenerator) generateRootType() error {
 
 	for _, name := range sortDefinitionsByName(g.schema.Definitions) {
 		def := g.schema.Definitions[name]
+		if def == nil {
+			return fmt.Errorf("%w: definition %q", errNullSchema, name)
+		}
 
 		_, err := g.generateDeclaredType(def, newNameScope(g.caser.Identifierize(name)))
 		if err != nil {
@@ -133,6 +136,10 @@ func (g *schemaGenerator) generateReferencedType(t *schemas.Type) (codegen.Type,
 		def, ok = schema.Definitions[defName]
 		if !ok {
 			return nil, fmt.Errorf("%w: %q (from ref %q)", errDefinitionDoesNotExistInSchema, defName, t.Ref)
+		}
+
+		if def == nil {
+			return nil, fmt.Errorf("%w: definition %q", errNullSchema, defName)
 		}
 
 		if len(def.Type) == 0 && len(def.Properties) == 0 && def.Enum == nil {
@@ -747,6 +754,10 @@ func (g *schemaGenerator) addStructField(
 	requiredNames map[string]bool,
 ) error {
 	prop := t.Properties[name]
+	if prop == nil {
+		return fmt.Errorf("%w: property %q", errNullSchema, name)
+	}
+
 	isRequired := requiredNames[name]
 
 	fieldName := g.caser.Identifierize(name)
@@ -1177,6 +1188,10 @@ func (g *schemaGenerator) resolveRefs(types []*schemas.Type) ([]*schemas.Type, e
 	resolvedTypes := make([]*schemas.Type, 0, len(types))
 
 	for _, typ := range types {
+		if typ == nil {
+			return nil, fmt.Errorf("%w: allOf/anyOf element", errNullSchema)
+		}
+
 		resolvedType, err := g.resolveRef(typ)
 		if err != nil {
 			return nil, fmt.Errorf("could not resolve ref %q: %w", typ.Ref, err)
